@@ -67,7 +67,7 @@ def root_names(slot):
 def runtime_map(spec, prefix=()):
     """path -> content of a runtime spec (same format as tree_map)"""
     out = {prefix: (spec['cls'], spec['tok'] if spec['cls'] not in ('Node', 'Root') else 0,
-                    tuple(sorted((k, t) for k, t in spec['mds'])), ())}
+                    tuple(sorted((m[0], m[1]) for m in spec['mds'])), ())}
     for k in spec['kids']:
         out.update(runtime_map(k, prefix + (k['name'],)))
     return out
